@@ -42,7 +42,9 @@ def body(ck, F, cfg):
     # user holes are on the main transcript
     for name, I in (("verifier", AN.verifier_scalars(F)["I"]), ("prover", AN.prover_run(F)["I"])):
         users = [it for it, ctx in AN.flat_trace(I.trace.items) if it[0] == "user"]
-        ck.require(bool(users) and all(isinstance(u[1]["tr"], Tr) and not u[1]["tr"].is_clone() for u in users), "R05.1", f"{name}:user-on-main", "randomized callbacks must act on the system's main transcript")
+        main_tr = (AN.verifier_scalars(F)["ver"] if name == "verifier" else AN.prover_run(F)["prover"]).fields["transcript"]
+        okm = bool(users) and all(u[1]["tr"] is main_tr and u[1].get("tr_challenge", main_tr) is main_tr for u in users)
+        ck.require(okm, "R05.1", f"{name}:user-on-main", f"inside randomized callbacks cs.transcript() and cs.challenge_scalar() must act on the system's main transcript (so application data appended there is bound); they act on {[(repr(u[1]['tr']), repr(u[1].get('tr_challenge'))) for u in users]}")
     # R05.2 V_j weighted by wV_j * r * x^2 ; Committed arm of the verifier's flatten
     A = AN.verifier_scalars(F)
     pad = REF.pad_of(REF.n1 + REF.n2)
